@@ -192,6 +192,8 @@ type lfEngine struct {
 	addrTaken map[string][]*ssa.Function
 	pure      map[*ssa.Function]int // 0 unknown, 1 pure, 2 impure
 	loopsSeen map[string]string     // loop key → termination verdict
+	loopPend  map[string]*Loop      // loops with no syntactic ranking argument yet: decided by resolveLoops from sliceLow
+	sliceLow  map[*ssa.Slice]int8   // s[k:] executed: +1 when k ≥ 1 was entailed in every state that reached it, -1 otherwise
 	loopPos   map[string]token.Pos
 	budgetHit bool
 	entryName string
@@ -229,7 +231,7 @@ type lfEngine struct {
 type lfCopy struct{ Total, Partial int }
 
 func newLenflow(c *Ctx, maxDepth int) *lfEngine {
-	e := &lfEngine{c: c, obls: map[string]*lfObl{}, maxSteps: 4000000, maxDepth: maxDepth, analysed: map[*ssa.Function]bool{}, scheduled: map[*ssa.Function]bool{}, copyTotal: map[*ssa.Call]*lfCopy{}, pure: map[*ssa.Function]int{}, loopsSeen: map[string]string{}, loopPos: map[string]token.Pos{}}
+	e := &lfEngine{c: c, obls: map[string]*lfObl{}, maxSteps: 4000000, maxDepth: maxDepth, analysed: map[*ssa.Function]bool{}, scheduled: map[*ssa.Function]bool{}, copyTotal: map[*ssa.Call]*lfCopy{}, pure: map[*ssa.Function]int{}, loopsSeen: map[string]string{}, loopPos: map[string]token.Pos{}, loopPend: map[string]*Loop{}, sliceLow: map[*ssa.Slice]int8{}}
 	e.addrTaken = map[string][]*ssa.Function{}
 	for _, fn := range c.ModFn {
 		if fn.Blocks == nil {
@@ -295,7 +297,7 @@ func sigKey(sig *types.Signature) string {
 
 // newLenflowShared creates a worker engine that shares the read-only tables of base.
 func newLenflowShared(c *Ctx, maxDepth int, base *lfEngine) *lfEngine {
-	e := &lfEngine{c: c, obls: map[string]*lfObl{}, maxSteps: base.maxSteps, maxDepth: maxDepth, analysed: map[*ssa.Function]bool{}, scheduled: map[*ssa.Function]bool{}, copyTotal: map[*ssa.Call]*lfCopy{}, pure: map[*ssa.Function]int{}, loopsSeen: map[string]string{}, loopPos: map[string]token.Pos{}}
+	e := &lfEngine{c: c, obls: map[string]*lfObl{}, maxSteps: base.maxSteps, maxDepth: maxDepth, analysed: map[*ssa.Function]bool{}, scheduled: map[*ssa.Function]bool{}, copyTotal: map[*ssa.Call]*lfCopy{}, pure: map[*ssa.Function]int{}, loopsSeen: map[string]string{}, loopPos: map[string]token.Pos{}, loopPend: map[string]*Loop{}, sliceLow: map[*ssa.Slice]int8{}}
 	e.addrTaken = base.addrTaken
 	e.bits = base.bits
 	e.fieldWidth = base.fieldWidth
@@ -321,6 +323,14 @@ func (e *lfEngine) merge(w *lfEngine) {
 	for k, v := range w.loopsSeen {
 		e.loopsSeen[k] = v
 		e.loopPos[k] = w.loopPos[k]
+	}
+	for k, l := range w.loopPend {
+		e.loopPend[k] = l
+	}
+	for sl, v := range w.sliceLow {
+		if cur, ok := e.sliceLow[sl]; !ok || v < cur {
+			e.sliceLow[sl] = v
+		}
 	}
 	for f := range w.analysed {
 		e.analysed[f] = true
@@ -1672,6 +1682,15 @@ func (e *lfEngine) doSlice(fr *lfFrame, st *lfState, x *ssa.Slice) {
 	}
 	if x.Low != nil || x.High != nil {
 		e.require(fr, st, x, "slice within length: "+exprText(x), geq(lo, linConst(0)), leq(lo, hi), leq(hi, ln))
+	}
+	if x.Low != nil && x.High == nil && e.quiet == 0 {
+		v := int8(-1)
+		if entails(st.cons, geq(lo, linConst(1))) {
+			v = 1
+		}
+		if cur, ok := e.sliceLow[x]; !ok || v < cur {
+			e.sliceLow[x] = v
+		}
 	}
 	out := vSlice{Len: hi.add(lo, -1)}
 	if sv, ok := base.(vSlice); ok && sv.Org != nil {
